@@ -90,30 +90,37 @@ Qed.
 
 (* ---- the stack test of the call instructions ---- *)
 
-Lemma growth_tests_are_gt : growth_checks_all_gt = true.
-Proof. reflexivity. Qed.
+Lemma growth_tests_are_ge : growth_checks_all_ge = true /\ swap_growth_checks_all_ge = true.
+Proof. split; reflexivity. Qed.
 
-(* registers 1..numreg of the callee are in bounds after the test, except when fp + numreg = st *)
-Lemma call_check_in_bounds fp numreg st r :
-  numreg < st -> fp + numreg <> st -> fp <= st -> 1 <= r <= numreg -> fp + r < after_call_check fp numreg st.
-Proof.
-  intros Hn Hne Hfp Hr. unfold after_call_check. destruct (Nat.ltb st (fp + numreg)) eqn:E.
-  - apply Nat.ltb_lt in E. lia.
-  - apply Nat.ltb_ge in E. lia.
-Qed.
-
-(* the test uses > : with fp + numreg = st the stack is not grown and the last register is one past the end *)
-Lemma call_check_off_by_one :
-  exists fp numreg st, numreg <= 127 /\ fp + numreg = st /\ after_call_check fp numreg st = st /\
-    nth_error (repeat 0%Z st) (fp + numreg) = None.
-Proof. exists 511, 1, 512. split; [lia|]. split; [reflexivity|]. split; vm_compute; reflexivity. Qed.
-
-(* the statement one would want about the test, and its refutation *)
+(* registers 1..numreg of the callee are in bounds after the test *)
 Definition call_statement : Prop :=
   forall fp numreg st r,
     numreg <= 127 -> 512 <= st -> fp <= st -> 1 <= r <= numreg -> fp + r < after_call_check fp numreg st.
 
-Lemma call_statement_refuted : ~ call_statement.
+Lemma call_statement_holds : call_statement.
+Proof.
+  intros fp numreg st r Hn Hst Hfp Hr. unfold after_call_check.
+  destruct (Nat.leb st (fp + numreg)) eqn:E.
+  - apply Nat.leb_le in E. lia.
+  - apply Nat.leb_gt in E. lia.
+Qed.
+
+(* the stack is grown only when the frame does not fit: a frame that fits leaves the top unchanged *)
+Lemma call_check_minimal fp numreg st :
+  fp + numreg < st -> after_call_check fp numreg st = st.
+Proof. intros H. unfold after_call_check. destruct (Nat.leb st (fp + numreg)) eqn:E; [apply Nat.leb_le in E; lia|reflexivity]. Qed.
+
+(* the former test used > (before fix 06a16cd): with fp + numreg = st the stack was not grown and
+   the last register was one past the end *)
+Lemma call_check_gt_off_by_one :
+  exists fp numreg st, numreg <= 127 /\ fp + numreg = st /\ after_call_check_gt fp numreg st = st /\
+    nth_error (repeat 0%Z st) (fp + numreg) = None.
+Proof. exists 511, 1, 512. split; [lia|]. split; [reflexivity|]. split; vm_compute; reflexivity. Qed.
+
+Lemma call_statement_gt_refuted :
+  ~ (forall fp numreg st r,
+      numreg <= 127 -> 512 <= st -> fp <= st -> 1 <= r <= numreg -> fp + r < after_call_check_gt fp numreg st).
 Proof.
   intros H. specialize (H 511 1 512 1 ltac:(lia) ltac:(lia) ltac:(lia) ltac:(lia)).
   vm_compute in H. lia.
